@@ -1005,6 +1005,9 @@ func compileIfStmt(context *funcContext, stmt *ast.IfStmt) { // {{{
 
 func compileBranchCondition(context *funcContext, reg int, expr ast.Expr, thenlabel, elselabel int, hasnextcond bool) { // {{{
 	// TODO folding constants?
+	// not / and / or in a condition recurse here, not through compileExpr
+	context.enterLevel(sline(expr))
+	defer context.leaveLevel()
 	code := context.Code
 	flip := 0
 	jumplabel := elselabel
